@@ -53,14 +53,15 @@ type ContractSet struct {
 	GlobalInvs []GlobalInv
 	Lemmas     []Clause // SMT-level lemmas stated over spec functions (proved once)
 	TypeInvs   map[string][]Clause
+	FieldInvs  map[string][]Clause // "Struct.field" -> invariants over $v (assumed at loads, proved at stores)
 	Files      []string
 }
 
-var clauseKw = regexp.MustCompile(`^(func|iface|callback|spawn|event|step|uses|assumes|requires|ensures|modifies|loop|invariant|decreases|unroll|trusted|props|safety|noinline|global-invariant|lemma|typeinv|end)\b`)
+var clauseKw = regexp.MustCompile(`^(func|iface|callback|spawn|fieldinv|event|step|uses|assumes|requires|ensures|modifies|loop|invariant|decreases|unroll|trusted|props|safety|noinline|global-invariant|lemma|typeinv|end)\b`)
 
 // LoadContracts reads //@ comment blocks from the given files.
 func LoadContracts(files ...string) (*ContractSet, error) {
-	cs := &ContractSet{Funcs: map[string]*Contract{}, TypeInvs: map[string][]Clause{}, Files: files}
+	cs := &ContractSet{Funcs: map[string]*Contract{}, TypeInvs: map[string][]Clause{}, FieldInvs: map[string][]Clause{}, Files: files}
 	for _, f := range files {
 		if err := cs.loadFile(f); err != nil {
 			return nil, err
@@ -151,6 +152,17 @@ func (cs *ContractSet) loadFile(path string) error {
 				return err
 			}
 			cs.Lemmas = append(cs.Lemmas, c)
+		case "fieldinv":
+			idx := strings.Index(r.text, ":")
+			if idx < 0 {
+				return fmt.Errorf("%s:%d: fieldinv needs 'Struct.field: expr'", path, r.line)
+			}
+			fn := strings.TrimSpace(r.text[:idx])
+			e, err := ParseSpec(strings.TrimSpace(r.text[idx+1:]))
+			if err != nil {
+				return fmt.Errorf("%s:%d: %v", path, r.line, err)
+			}
+			cs.FieldInvs[fn] = append(cs.FieldInvs[fn], Clause{Expr: e, Src: strings.TrimSpace(r.text[idx+1:]), Line: r.line})
 		case "typeinv":
 			// typeinv T: expr over "self"
 			idx := strings.Index(r.text, ":")
